@@ -3,6 +3,8 @@ package props
 import (
 	"fmt"
 	"go/token"
+	"sort"
+	"verif/internal/engine/bounds"
 
 	"golang.org/x/tools/go/ssa"
 
@@ -15,7 +17,7 @@ func init() { Registry["C14"] = checkC14 }
 
 // C14 - the byte ring between socket and protocol engine is a lossless FIFO.
 func checkC14(c *Ctx) {
-	c.R.NotCover = append(c.R.NotCover, "that the bytes delivered are the right ones: the wrap arithmetic of waitForWriteSpace / ReadPeek / ReadWait and the split copies are value properties over all cursor positions", "that the atomics order the data correctly under all interleavings (only the monitor discipline and the single-producer/single-consumer ownership are checked)")
+	c.R.NotCover = append(c.R.NotCover, "that the bytes delivered are the right ones for every cursor history (the space accounting of waitForWriteSpace, i.e. that producer and consumer never overlap): decided are memory safety of every ring access under the size invariant, the lengths handed out, and that each side indexes at and advances its own cursor", "that the atomics order the data correctly under all interleavings (only the monitor discipline and the single-producer/single-consumer ownership are checked)")
 	c.useRules(ruleP5, ruleP9, ruleL3)
 	r := c.Roles()
 	if !c.Need("processor", r.Processor, "receiver", r.Receiver, "sender", r.Sender, "ring writer", r.RingWrite) {
@@ -33,6 +35,8 @@ func checkC14(c *Ctx) {
 	c.commitAfterUse()
 	c.scratchReset()
 	c.writerCriticalSpan()
+	c.ringMemorySafety()
+	c.ringPositions()
 }
 
 // roleDisjoint: no location the wait predicates depend on is written by both sides.
@@ -327,4 +331,285 @@ func (c *Ctx) scratchReset() {
 	}
 	c.R.Count("appends into the consumer scratch buffer", n)
 	c.R.Floor("appends into the consumer scratch buffer (ReadPeek x2, ReadWait x2)", n, 4)
+}
+
+const ruleB10 = "B10-ring-memory-safety"
+
+// ringMemorySafety: every index / slice expression in the ring buffer's methods is in bounds for every
+// cursor value and every argument, given the object invariant the constructor establishes and no
+// method changes: len(buf) == size, mask == size-1, size >= 1. Cursor values read through the atomic
+// sequence getters are arbitrary integers for this analysis (the other side may move them at any time).
+func (c *Ctx) ringMemorySafety() {
+	c.R.Rule(ruleB10, "object invariant + bounds: the constructor of the ring establishes len(buf) == size and mask == size-1 (size >= 1), no other function stores these fields, and under that invariant every s[i] / s[a:b] in the ring's methods and in ringCopy is in bounds for arbitrary cursor values and arguments (engine B; cursors read through the atomic getters are unconstrained).")
+	ctor := c.P.Func("service", "", "newBuffer")
+	if ctor == nil {
+		c.R.Unresolved("service.newBuffer")
+		return
+	}
+	// (1) write-once
+	for _, f := range []string{"buf", "size", "mask"} {
+		ws := c.whoWrites("service", "buffer", f)
+		var names []string
+		for _, w := range ws {
+			names = append(names, fname(w))
+		}
+		c.R.Check(len(ws) == 0, ruleB10, "buffer."+f+":written-only-by-the-constructor", c.P.Pos(ctor.Pos()), "no method stores the field", "buffer."+f+" is stored outside the constructor ("+joinStr(names, ", ")+"): the ring's size invariant (len(buf) == size, mask == size-1) no longer holds for the methods that index with it")
+	}
+	// (2) the constructor establishes the invariant
+	an0 := bounds.NewAnalyzer(c.P)
+	an0.Run(ctor)
+	minSize := int64(0)
+	established := false
+	for i := range an0.EntryRets {
+		ret, res, facts := an0.EntryReturn(i)
+		if len(res) < 2 || res[1].IsNil != 1 || res[0].Kind != bounds.KAddr {
+			continue
+		}
+		heap := an0.EntryRets[i].State.Heap
+		get := func(f string) (bounds.AVal, bool) {
+			v, ok := heap[res[0].Obj+"|"+f]
+			return v, ok
+		}
+		buf, ok1 := get("buf")
+		size, ok2 := get("size")
+		mask, ok3 := get("mask")
+		ok := ok1 && ok2 && ok3 && buf.Kind == bounds.KSlice && size.Kind == bounds.KInt && mask.Kind == bounds.KInt
+		if ok {
+			ok = bounds.Proves(facts, bounds.GE(buf.Len, size.Int)) && bounds.Proves(facts, bounds.LE(buf.Len, size.Int)) &&
+				bounds.Proves(facts, bounds.GE(mask.Int, size.Int.AddK(-1))) && bounds.Proves(facts, bounds.LE(mask.Int, size.Int.AddK(-1)))
+		}
+		if ok {
+			for _, k := range []int64{16384, 2, 1} {
+				if bounds.Proves(facts, bounds.GE(size.Int, bounds.Const(k))) {
+					minSize = k
+					break
+				}
+			}
+			ok = minSize >= 1
+		}
+		established = ok
+		c.R.Check(ok, ruleB10, "newBuffer:establishes-size-invariant", c.P.InstrPos(ret), fmt.Sprintf("len(buf) == size, mask == size-1, size >= %d at the successful return", minSize), "the constructor does not provably establish len(buf) == size, mask == size-1 and size >= 1")
+	}
+	if !established {
+		return
+	}
+	// (3) bounds of every access in the ring's code under the invariant
+	an := bounds.NewAnalyzer(c.P)
+	an.Invariant = func(a *bounds.Analyzer, st *bounds.State, owner, field, obj string) (bounds.AVal, bool) {
+		if owner != "service.buffer" {
+			return bounds.AVal{}, false
+		}
+		S := bounds.Sym("ringsize@" + obj)
+		switch field {
+		case "size":
+			st.Add(bounds.GE(S, bounds.Const(minSize)))
+			return bounds.AVal{Kind: bounds.KInt, Int: S}, true
+		case "mask":
+			st.Add(bounds.GE(S, bounds.Const(minSize)))
+			return bounds.AVal{Kind: bounds.KInt, Int: S.AddK(-1)}, true
+		case "buf":
+			st.Add(bounds.GE(S, bounds.Const(minSize)))
+			return bounds.AVal{Kind: bounds.KSlice, Len: S}, true
+		}
+		return bounds.AVal{}, false
+	}
+	// documented precondition of the producer-side calls: the byte count asked for is a length (their
+	// callers pass msg.Len(), len(p) or the block size); the consumer-side calls test n < 0 themselves
+	c.R.Trusted = append(c.R.Trusted, "WriteWait / WriteCommit / waitForWriteSpace are called with n >= 0 (a length)")
+	an.EntryAssume = func(a *bounds.Analyzer, st *bounds.State, fn *ssa.Function, args []bounds.AVal) {
+		switch fn.Name() {
+		case "WriteWait", "WriteCommit", "waitForWriteSpace":
+			for _, av := range args {
+				if av.Kind == bounds.KInt {
+					st.Add(bounds.GE(av.Int, bounds.Const(0)))
+				}
+			}
+		}
+	}
+	var entries []*ssa.Function
+	for _, fn := range c.P.Funcs {
+		if fn.Pkg == nil || fn.Pkg.Pkg.Path() != pkgService || fn.Parent() != nil || fn == ctor {
+			continue
+		}
+		if recvNamed(fn) == "buffer" {
+			entries = append(entries, fn) // ringCopy is analysed in the context of its callers
+		}
+	}
+	sort.Slice(entries, func(i, j int) bool { return fname(entries[i]) < fname(entries[j]) })
+	for _, fn := range entries {
+		an.Run(fn)
+		// length contracts of the two calls that hand out ring memory
+		switch fn.Name() {
+		case "ReadWait", "WriteWait":
+			k := 0
+			for i := range an.EntryRets {
+				ret, res, facts := an.EntryReturn(i)
+				if len(res) < 2 || res[len(res)-1].IsNil != 1 || res[0].Kind != bounds.KSlice || len(an.EntryArgs) < 2 || an.EntryArgs[1].Kind != bounds.KInt {
+					continue
+				}
+				want := an.EntryArgs[1].Int
+				if fn.Name() == "WriteWait" {
+					// only the in-place (non-wrapping) return promises n bytes
+					if kc, ok := ir.ReturnOperand(ret, 1).(*ssa.Const); !ok || kc.Value == nil || kc.Value.ExactString() != "false" {
+						continue
+					}
+				}
+				k++
+				ok := bounds.Proves(facts, bounds.GE(res[0].Len, want)) && bounds.Proves(facts, bounds.LE(res[0].Len, want))
+				c.R.Check(ok, ruleB10, fmt.Sprintf("%s:return#%d:hands-out-exactly-n-bytes", fn.Name(), k), c.P.InstrPos(ret), "len(result) == n on the successful return", fn.Name()+" can return successfully with a slice whose length is not the n bytes asked for: the caller decodes (or encodes into) fewer / more bytes than the packet has")
+			}
+		}
+	}
+	n := 0
+	for _, k := range an.Order {
+		o := an.Obls[k]
+		host := o.Instr.Parent()
+		if recvNamed(host) != "buffer" && host.Name() != "ringCopy" {
+			continue
+		}
+		n++
+		if o.Proven {
+			c.R.Ok(ruleB10, k, c.P.InstrPos(o.Instr), fmt.Sprintf("%s: proven in %d context(s)", o.Desc, o.Contexts))
+		} else {
+			c.R.Bad(ruleB10, k, c.P.InstrPos(o.Instr), fmt.Sprintf("%s is not provable for every cursor value and argument under the ring's size invariant: the access can panic (the goroutine's recover then ends the connection, or the process dies where there is none)", o.Desc), o.Failed...)
+		}
+	}
+	c.R.Count("index/slice sites in the ring buffer", n)
+	c.R.Floor("index/slice sites in the ring buffer", n, 15)
+}
+
+// ringPositions: each side addresses the ring at its own cursor: every non-zero start index of a slice of
+// the ring's storage is (cursor & mask) with the consumer's cursor in the consuming calls and the
+// producer's cursor (as returned by the space reservation) in the producing calls.
+func (c *Ctx) ringPositions() {
+	mons := locks.FindMonitors(c.P, c.Locks(), c.Effects())
+	var buf *locks.Monitor
+	for _, m := range mons {
+		if m.Type.Obj().Name() == "buffer" {
+			buf = m
+		}
+	}
+	if buf == nil {
+		return
+	}
+	reserve := c.P.Func("service", "buffer", "waitForWriteSpace")
+	fromProducerCursor := func(v ssa.Value) bool {
+		v = ir.SeeThrough(v)
+		if cv, ok := v.(*ssa.Convert); ok {
+			v = ir.SeeThrough(cv.X)
+		}
+		if readsCursor(v, "pseq", 0) {
+			return true
+		}
+		ex, ok := v.(*ssa.Extract)
+		if !ok || ex.Index != 0 {
+			return false
+		}
+		call, ok := ex.Tuple.(*ssa.Call)
+		if !ok || call.Common().StaticCallee() != reserve || reserve == nil {
+			return false
+		}
+		// the reservation returns the producer's position as its first result on the successful return
+		for _, ret := range ir.Returns(reserve) {
+			if k, isK := ir.ReturnOperand(ret, 2).(*ssa.Const); isK && k.IsNil() {
+				if !readsCursor(ir.ReturnOperand(ret, 0), "pseq", 0) {
+					return false
+				}
+			}
+		}
+		return true
+	}
+	n := 0
+	for _, fn := range c.P.Funcs {
+		if recvNamed(fn) != "buffer" || fn.Parent() != nil || fn.Pkg == nil || fn.Pkg.Pkg.Path() != pkgService {
+			continue
+		}
+		consumer, producer := buf.Role["ccond"][fn], buf.Role["pcond"][fn]
+		if consumer == producer {
+			continue
+		}
+		side, cursor := "consumer", "cseq"
+		if producer {
+			side, cursor = "producer", "pseq"
+		}
+		check := func(at ssa.Instruction, idx ssa.Value, what string) {
+			if idx == nil {
+				return
+			}
+			if k, ok := idx.(*ssa.Const); ok && k.Value != nil && k.Value.ExactString() == "0" {
+				return
+			}
+			n++
+			ok := false
+			v := ir.SeeThrough(idx)
+			if cv, isC := v.(*ssa.Convert); isC {
+				v = ir.SeeThrough(cv.X)
+			}
+			if bo, isB := v.(*ssa.BinOp); isB && bo.Op == token.AND {
+				for _, pr := range [][2]ssa.Value{{bo.X, bo.Y}, {bo.Y, bo.X}} {
+					mp := ir.PathOf(pr[1])
+					if len(mp.Fields) == 0 || mp.Fields[len(mp.Fields)-1] != "mask" {
+						continue
+					}
+					if side == "consumer" && readsCursor(pr[0], cursor, 0) || side == "producer" && fromProducerCursor(pr[0]) {
+						ok = true
+					}
+				}
+			}
+			c.R.Check(ok, ruleP9, fmt.Sprintf("ring:%s:%s-at-own-cursor", fn.Name(), what), c.P.InstrPos(at), "start index = ("+side+"'s cursor) & mask",
+				"the "+side+"-side call "+fn.Name()+" addresses the ring's storage at an index that is not ("+side+"'s cursor & mask): it reads bytes that were not written yet / overwrites bytes that were not consumed yet")
+		}
+		for _, b := range fn.Blocks {
+			for _, in := range b.Instrs {
+				switch x := in.(type) {
+				case *ssa.Slice:
+					if p := ir.PathOf(x.X); len(p.Fields) > 0 && p.Fields[len(p.Fields)-1] == "buf" && p.Root == ssa.Value(fn.Params[0]) {
+						check(x, x.Low, "slice")
+					}
+				case *ssa.Call:
+					if f := x.Common().StaticCallee(); f != nil && f.Name() == "ringCopy" && len(x.Common().Args) == 3 {
+						check(x, x.Common().Args[2], "ringCopy")
+					}
+				}
+			}
+		}
+	}
+	// cursor updates: each side advances its own cursor from that cursor's current value (cursor + count)
+	nset := 0
+	for _, fn := range c.P.Funcs {
+		if recvNamed(fn) != "buffer" || fn.Parent() != nil || fn.Pkg == nil || fn.Pkg.Pkg.Path() != pkgService {
+			continue
+		}
+		for _, call := range ir.Calls(fn) {
+			f := call.Common().StaticCallee()
+			if f == nil || f.Name() != "set" || recvNamed(f) != "sequence" || len(call.Common().Args) != 2 {
+				continue
+			}
+			sp := ir.PathOf(call.Common().Args[0])
+			if len(sp.Fields) == 0 {
+				continue
+			}
+			cursor := sp.Fields[len(sp.Fields)-1]
+			nset++
+			ok := false
+			v := ir.SeeThrough(call.Common().Args[1])
+			if bo, isB := v.(*ssa.BinOp); isB && bo.Op == token.ADD {
+				for _, pr := range [][2]ssa.Value{{bo.X, bo.Y}, {bo.Y, bo.X}} {
+					base := pr[0]
+					if _, isK := pr[1].(*ssa.Const); isK {
+						continue // cursor + constant is not "cursor + bytes moved"
+					}
+					if cursor == "cseq" && readsCursor(base, "cseq", 0) || cursor == "pseq" && fromProducerCursor(base) {
+						ok = true
+					}
+				}
+			}
+			c.R.Check(ok, ruleP9, fmt.Sprintf("ring:%s:advances-%s-from-its-current-value", fn.Name(), cursor), c.P.InstrPos(call), cursor+".set("+cursor+" position + bytes moved)",
+				fn.Name()+" sets the "+cursor+" cursor to something else than (its current position + the number of bytes moved): bytes are skipped, delivered twice, or the other side's space accounting is corrupted")
+		}
+	}
+	c.R.Count("cursor updates in the ring", nset)
+	c.R.Floor("cursor updates in the ring", nset, 4)
+	c.R.Count("ring storage accesses with a cursor-derived start index", n)
+	c.R.Floor("ring storage accesses with a cursor-derived start index", n, 8)
 }
